@@ -6,8 +6,9 @@ from lib import shipped
 CHECK = Check(
     "C13",
     streams=[units_stream("units", fields=["xmlast", "xmlpkg", "det", "tgt"],
-                          nontrivial=lambda tags, inp: True, select=lambda tags: tags.startswith("sup"))],
-    rule=("every SUPPORTED unit of the depth<=2 enumeration (unsupported shapes are C14's finding): the real generator is run for the file, directory and package targets "
+                          nontrivial=lambda tags, inp: True, select=lambda tags: tags.startswith("sup") or tags.startswith("unsup"),
+                          vacuous=lambda tags, o: tags.startswith("unsup") and o == "")],
+    rule=("every unit of the depth<=2 enumeration for which the real generator produces output (supported or not: the units whose generated code does not compile are C14's finding, but their parse trees are compared all the same; a unit the generator refuses outright - [][]byte and the like - has no tree to compare and is counted out_of_scope_cases): the real generator is run for the file, directory and package targets "
           "and twice for the file target; XML dumps of all targets are compared (as hashes) with the dump of the two parser models; "
           "sources must be identical across runs and targets up to the numbering of t/err/i identifiers; plus: the package target run "
           "on /repo/testobj must reproduce /repo/testobj_ins/*.go and /repo/testdata/*.xml byte for byte. distinct = distinct "
